@@ -33,6 +33,12 @@ pub struct Sc {
     #[serde(default)]
     pub sequences: Vec<Vec<String>>,
     pub app_runs: Vec<Vec<AppRow>>,
+    /// per application run: number of CSV files the rows are spread over (one shared loader)
+    #[serde(default)]
+    pub app_run_files: Vec<usize>,
+    /// the CSV files use the deprecated 'date' column for the settlement date
+    #[serde(default)]
+    pub legacy_date_col: bool,
     pub hash_seed: u64,
 }
 
@@ -102,9 +108,14 @@ pub fn generate(seed: u64) -> Sc {
                     row.fx = Some(explicit.clone());
                 }
                 _ => {
-                    row.cur = Some("usd".into());
+                    row.cur = Some((*r.pick(&["usd", "Usd", " USD ", "usd "])).to_string());
                 }
             }
+            if r.chance(1, 12) {
+                // degenerate explicit rates: 1 is a rate like any other, 0 and negatives are refused
+                row.fx = Some((*r.pick(&["1", "0", "-1.25", "1.0000"])).to_string());
+            }
+            row.sell = r.chance(1, 4);
             if r.chance(1, 2) {
                 row.commission = true;
                 match r.weighted(&[4, 2, 2, 1, 1, 1]) {
@@ -134,6 +145,8 @@ pub fn generate(seed: u64) -> Sc {
         published_today,
         lookups: lookups.iter().map(|d| d.to_string()).collect(),
         sequences,
+        app_run_files: app_runs.iter().map(|_| r.range(1, 3) as usize).collect(),
+        legacy_date_col: r.chance(1, 5),
         app_runs,
         hash_seed: r.next_u64(),
     }
@@ -148,20 +161,29 @@ fn expected_side(
     cur: &Option<String>,
     fx: &Option<String>,
 ) -> Result<Option<(String, Decimal)>, String> {
-    let cur_u = cur.as_ref().map(|c| c.to_uppercase());
-    match (cur_u.as_deref(), fx) {
+    let cur_u = cur.as_ref().map(|c| c.trim().to_uppercase());
+    let fxv = match fx {
+        Some(f) => {
+            let v = Decimal::from_str(f.trim()).unwrap();
+            if v <= Decimal::ZERO {
+                return Err("an exchange rate must be positive".into());
+            }
+            Some(v)
+        }
+        None => None,
+    };
+    match (cur_u.as_deref(), fxv) {
         (None, None) => Ok(None),
         (None, Some(_)) => Err("rate without currency".into()),
         (Some("CAD"), None) => Ok(Some(("CAD".into(), Decimal::ONE))),
-        (Some("CAD"), Some(f)) => {
-            let v = Decimal::from_str(f).unwrap();
+        (Some("CAD"), Some(v)) => {
             if v == Decimal::ONE {
                 Ok(Some(("CAD".into(), v)))
             } else {
                 Err("CAD only accepts 1".into())
             }
         }
-        (Some(c), Some(f)) => Ok(Some((c.to_string(), Decimal::from_str(f).unwrap()))),
+        (Some(c), Some(v)) => Ok(Some((c.to_string(), v))),
         (Some("USD"), None) => match ref_lookup(boc, today, pt, trade) {
             RefAnswer::Rate { date, .. } => Ok(Some(("USD".into(), boc.expected_rate(date).unwrap()))),
             RefAnswer::NoRate => Err("no rate".into()),
@@ -241,6 +263,7 @@ impl Engine for C12 {
                 app_rows: None,
                 app_files: 1,
                 app_console: false,
+                app_legacy_date: false,
                 net_faults: vec![],
                 fs_faults: FsFaultSpec::default(),
                 knobs: Knobs::default(),
@@ -359,7 +382,14 @@ impl Engine for C12 {
         }
 
         // Application path: CSV rows -> load_tx_rates -> Tx::try_from -> deltas.
-        for rows in &sc.app_runs {
+        for (run_i, rows) in sc.app_runs.iter().enumerate() {
+            let n_files = sc.app_run_files.get(run_i).copied().unwrap_or(1).max(1);
+            if n_files > 1 {
+                st.bump("probe.app_rows_over_several_files");
+            }
+            if rows.iter().any(|r| r.sell) {
+                st.bump("probe.app_sell_rows");
+            }
             crate::interpose::with_world(|w| w.fs.disk = crate::simfs::Disk::new());
             let obs = run_fx_process(FxPlan {
                 data: boc.clone(),
@@ -370,8 +400,9 @@ impl Engine for C12 {
                 mem_in: MemState::new(),
                 lookups: vec![],
                 app_rows: Some(rows.clone()),
-                app_files: 1,
+                app_files: n_files,
                 app_console: false,
+                app_legacy_date: sc.legacy_date_col,
                 net_faults: vec![],
                 fs_faults: FsFaultSpec::default(),
                 knobs: Knobs::default(),
@@ -393,10 +424,10 @@ impl Engine for C12 {
                     }
                 };
                 match (&row.cur, &row.fx) {
-                    (Some(c), None) if c.to_uppercase() == "USD" => st.bump("probe.app_usd_without_rate"),
-                    (Some(c), Some(_)) if c.to_uppercase() == "USD" => st.bump("probe.app_usd_explicit_rate"),
-                    (Some(c), Some(_)) if c.to_uppercase() == "CAD" => st.bump("probe.app_cad_with_rate"),
-                    (Some(c), _) if c.to_uppercase() != "CAD" => st.bump("probe.app_other_currency"),
+                    (Some(c), None) if c.trim().to_uppercase() == "USD" => st.bump("probe.app_usd_without_rate"),
+                    (Some(c), Some(_)) if c.trim().to_uppercase() == "USD" => st.bump("probe.app_usd_explicit_rate"),
+                    (Some(c), Some(_)) if c.trim().to_uppercase() == "CAD" => st.bump("probe.app_cad_with_rate"),
+                    (Some(c), _) if c.trim().to_uppercase() != "CAD" => st.bump("probe.app_other_currency"),
                     _ => st.bump("probe.app_cad"),
                 }
                 if row.ccur.is_some() {
@@ -418,8 +449,9 @@ impl Engine for C12 {
                     mem_in: MemState::new(),
                     lookups: vec![],
                     app_rows: Some(rows.clone()),
-                    app_files: 1,
+                    app_files: n_files,
                     app_console: true,
+                    app_legacy_date: sc.legacy_date_col,
                     net_faults: vec![],
                     fs_faults: FsFaultSpec::default(),
                     knobs: Knobs::default(),
@@ -447,13 +479,13 @@ impl Engine for C12 {
                 } else if con_ok {
                     st.bump("probe.console_run_printed_tables");
                     for (i, row) in rows.iter().enumerate() {
-                        let is_usd_lookup = row.cur.as_ref().map(|c| c.to_uppercase() == "USD").unwrap_or(false) && row.fx.is_none();
+                        let is_usd_lookup = row.cur.as_ref().map(|c| c.trim().to_uppercase() == "USD").unwrap_or(false) && row.fx.is_none();
                         if !is_usd_lookup || malformed_cfg {
                             continue;
                         }
                         if let Ok(((_, tr), _)) = &expected[i] {
                             // 1000 shares at 10.00 USD: the Amount cell is $<10000 x rate> to the cent
-                            let amount = (Decimal::from(10000) * *tr).round_dp_with_strategy(2, rust_decimal::RoundingStrategy::MidpointAwayFromZero);
+                            let amount = (Decimal::from(if row.sell { 10 } else { 10000 }) * *tr).round_dp_with_strategy(2, rust_decimal::RoundingStrategy::MidpointAwayFromZero);
                             let cell = format!("${:.2}", amount);
                             if !out_txt.contains(&cell) {
                                 push(Violation { kind: "console_wrong_amount".into(), signature: "Amount cell of a USD row not computed with the expected rate".into(), detail: format!("today {} published_today {} rows:\n{}row {}: expected an Amount cell {} (10000.00 USD x {}), not found on stdout", today, pt, app_csv(rows), i, cell, tr) }, &mut violations);
@@ -528,7 +560,7 @@ impl Engine for C12 {
                             push(v, &mut violations);
                         }
                     }
-                    if rates.len() != rows.len() {
+                    if rates.iter().filter(|r| r.row < rows.len()).count() != rows.len() {
                         push(Violation { kind: "app_row_count".into(), signature: "rows lost".into(), detail: format!("{} rows in, {} deltas out", rows.len(), rates.len()) }, &mut violations);
                     }
                 }
@@ -621,6 +653,16 @@ impl Engine for C12 {
             s.format = JsonFormat::default();
             c.push(s);
         }
+        if sc.legacy_date_col {
+            let mut s = sc.clone();
+            s.legacy_date_col = false;
+            c.push(s);
+        }
+        if sc.app_run_files.iter().any(|n| *n > 1) {
+            let mut s = sc.clone();
+            s.app_run_files.clear();
+            c.push(s);
+        }
         for (i, run) in sc.app_runs.iter().enumerate() {
             for (j, row) in run.iter().enumerate() {
                 if row.commission {
@@ -686,6 +728,8 @@ impl Engine for C12 {
             "probe.app_run_accepted",
             "probe.app_run_rejected",
             "probe.console_run_printed_tables",
+            "probe.app_rows_over_several_files",
+            "probe.app_sell_rows",
             "probe.console_run_rejected_with_message",
             "fault.obs_malformed_on_lookup_path",
         ]
